@@ -307,8 +307,15 @@ def case(ctx, i):
                     break
                 g2 = ffd.grid().resize(new_size)
                 ffd.grid_(g2)
+                # read right after the refinement, before anything updates the transform: the dense field is the refined one
+                first_read = ffd.tensor().detach().double().numpy()
+                first_flow = ffd.flow().tensor().detach().double().numpy()
                 ffd.update()
                 u1 = ffd.u.double().numpy()
+                ok_first = ctx.true("refined_ffd_first_read_has_new_shape", tuple(first_read.shape) == tuple(u1.shape) and tuple(first_flow.shape) == tuple(u1.shape), key="ffd_grid_/first_read", got=[list(first_read.shape), list(first_flow.shape)], want=list(u1.shape), rep=rep, **desc)
+                if ok_first:
+                    ctx.close("refined_ffd_first_read_equals_updated_field", first_read, u1, 1e-7 * (1 + np.abs(u1).max()), key="ffd_grid_/first_read", rep=rep, **desc)
+                    ctx.close("refined_ffd_first_flow_equals_updated_field", first_flow, u1, 1e-7 * (1 + np.abs(u1).max()), key="ffd_grid_/first_read", rep=rep, **desc)
                 new_shape = new_size[::-1]
                 ok = ctx.true("refined_ffd_covers_grid", tuple(u1.shape) == (N, D) + tuple(new_shape), key="ffd_grid_/shape", got=list(u1.shape), **desc)
                 if not ok:
